@@ -169,6 +169,23 @@ def classifier_clause(model, rep, funcs):
         ok = len(flats) >= 1 and all(norm_src(kwarg(c, "mask") or ast.Constant(None)) == "True" for c in flats)
         rep.ob("SLOT", g.anchor, "projections use the same masked flattening as the fit (mask=True at every site)", ok, f"{[norm_src(c) for c in flats]}", node=g.node,
                fn=g, clause="classifier", stmt="def get_transform")
+    if g is not None and g.param_names()[1:]:
+        # row k of the projection of a subset belongs to labels[k]: the requested index list selects the rows as it is (no sorting / de-duplication on the way)
+        pn = g.param_names()[1]
+        REORDER = {"sorted", "reversed", "set", "frozenset", "unique", "sort", "argsort", "flip", "shuffle", "permutation"}
+        MG = Matcher(g)
+        subs = [n for n in ast.walk(g.node) if isinstance(n, ast.Subscript) and pn in {x.id for x in ast.walk(MG.expr(n.slice)) if isinstance(x, ast.Name)}
+                and not (isinstance(n.value, ast.Name) and n.value.id == pn)]
+        bad = []
+        for n in subs:
+            ex = MG.expr(n.slice)
+            bad += [norm_src(c)[:50] for c in ast.walk(ex) if isinstance(c, ast.Call) and (dotted(c.func) or "").rsplit(".", 1)[-1] in REORDER]
+        bad += [norm_src(c)[:50] for c in calls_in(g) if isinstance(c.func, ast.Attribute) and c.func.attr in ("sort", "reverse") and norm_src(c.func.value) == pn]
+        if subs:
+            rep.instance("SLOT.pca", g.loc(subs[0]))
+            rep.ob("SLOT", g.anchor, f"a requested subset is projected in the requested order (row k belongs to {pn}[k])", not bad,
+                   f"the rows are selected through `{bad[0] if bad else ''}`: the order of `{pn}` is lost, row k is the projection of another image", node=subs[0], fn=g,
+                   clause="classifier", stmt="def get_transform order")
     h = funcs.get(C + "_image_flat")
     if h is not None:
         s = norm_src(h.node)
